@@ -101,6 +101,20 @@ check("C19", "snippet",
       "as Ingress annotation, Service annotation or both; a dropped snippet contributes no line, any other appears verbatim.",
       ENUM_NOTE + "Global-scope snippet keys are outside the check.", "DESIGN.md 6 C19")
 
+check("C03", "controller",
+      "TLA+ specs Routing.tla + MapLookup.tla (HAProxy rule evaluation and map lookups) against Routing!Expected (documented routing over "
+      "Controller!Routes); cluster states from TLC-simulated histories run on the real pipeline; TLC evaluates every request (TraceRouting.tla)",
+      "For every recorded cluster state TLC interprets the generated HTTP and HTTPS frontends, their map files and use_backend chain for 64 requests "
+      "(2 schemes x declared/unknown/upper-case hosts x declared paths and neighbours) and compares with the documented rule; the selected backends "
+      "must hold exactly the ready endpoints (not-ready ones only as weight-0 servers under drain-support).",
+      CTL_NOTE + " HAProxy's evaluation order and map semantics are transcribed, not executed.", "DESIGN.md 6 C03")
+check("C15", "controller",
+      "TLA+ spec Routing.tla (crt-list SNI selection) against Routing!ExpectedCert (first-created declaring Ingress, default on missing/malformed); "
+      "TLS-heavy TLC-simulated histories incl. secret rotation on the real pipeline + simulated HAProxy; judged by TLC (TraceRouting, TraceController)",
+      "For every recorded cluster state and 6 SNI names (exact, wildcard child, deeper child, unknown) the certificate selected by the written crt-list "
+      "must be the current content of the declared secret or the default certificate; after rotations the running HAProxy must serve what the files hold.",
+      CTL_NOTE, "DESIGN.md 6 C15")
+
 NOT_BUILT = "check not built yet (planned, DESIGN.md section 6); no claim made until the check exists"
 
 
